@@ -71,21 +71,23 @@ def run(rep, tier, seed):
     # field level: value-sent and LSB variable-length fields inside a SCHC packet
     nrt = 250 if tier == 'quick' else 2500
     for i in range(nrt):
+        # the id of the variable-length field: an invented one, the id the library gives the payload entry, ids of real header fields
+        XV = rnd.choice(['X:v', 'X:v', 'Payload', 'CoAP:Token', 'CoAP:Option Value', 'UDP:Length'])
         n = rnd.choice([0, 1, 13, 14, 15, 16, 100, 253, 254, 255, 256, 300, rnd.randint(0, 1200), rnd.randint(0, 70)])
         if tier == 'thorough' and i % 25 == 0:
             n = rnd.randint(0, 65535)
         v = randbits(rnd, n)
         kind = rnd.choice(['vs', 'lsb', 'vs-with-target'])
         if kind == 'vs':
-            fd = RuleFieldDescriptor('X:v', 0, 0, DI.BIDIRECTIONAL, Buffer(b'', 0), MO.IGNORE, CDA.VALUE_SENT)
+            fd = RuleFieldDescriptor(XV, 0, 0, DI.BIDIRECTIONAL, Buffer(b'', 0), MO.IGNORE, CDA.VALUE_SENT)
         elif kind == 'vs-with-target':
             # value-sent of variable length under a descriptor that carries a target value (equal / MSB): the announced size is the
             # size of the RESIDUE, i.e. of the whole field
             mo_ = rnd.choice([MO.EQUAL, MO.MSB])
-            fd = RuleFieldDescriptor('X:v', 0, 0, DI.BIDIRECTIONAL, mk(v if mo_ == MO.EQUAL else v[:rnd.choice([0, 1, n // 2, n])], rnd.choice([L, R])), mo_, CDA.VALUE_SENT)
+            fd = RuleFieldDescriptor(XV, 0, 0, DI.BIDIRECTIONAL, mk(v if mo_ == MO.EQUAL else v[:rnd.choice([0, 1, n // 2, n])], rnd.choice([L, R])), mo_, CDA.VALUE_SENT)
         else:
             x = rnd.choice([0, 1, n // 2, n, max(0, n - 1), max(0, n - 15)])
-            fd = RuleFieldDescriptor('X:v', 0, 0, DI.BIDIRECTIONAL, mk(v[:x], rnd.choice([L, R])), MO.MSB, CDA.LSB)
+            fd = RuleFieldDescriptor(XV, 0, 0, DI.BIDIRECTIONAL, mk(v[:x], rnd.choice([L, R])), MO.MSB, CDA.LSB)
         fds, vals = [fd], [v]
         if rnd.random() < 0.5:   # a preceding field, so that the announcement does not start right after the rule id
             m = rnd.randint(1, 19)
@@ -106,7 +108,7 @@ def run(rep, tier, seed):
             # the same descriptor compressed a second time with an MSB/LSB rule on the same field (what BEST does when both rules match)
             x = rnd.choice([0, 1, n // 2, max(0, n - 1)])
             fds2 = list(fds)
-            fds2[-1] = RuleFieldDescriptor('X:v', 0, 0, DI.BIDIRECTIONAL, mk(v[:x], rnd.choice([L, R])), MO.MSB, CDA.LSB)
+            fds2[-1] = RuleFieldDescriptor(XV, 0, 0, DI.BIDIRECTIONAL, mk(v[:x], rnd.choice([L, R])), MO.MSB, CDA.LSB)
             rule2 = RuleDescriptor(id=mk(randbits(rnd, rnd.randint(1, 16)), rnd.choice([L, R])), field_descriptors=fds2)
             o = case_compress(b, pd, rule2, None, klass='field-compress-again:lsb')
             if o[0] == 'OK':
@@ -118,9 +120,9 @@ def run(rep, tier, seed):
             for trail in ('none', 'ns', 'ns2', 'map0'):
                 v = randbits(rnd, n)
                 if kind == 'vs':
-                    fd = RuleFieldDescriptor('X:v', 0, 0, DI.BIDIRECTIONAL, Buffer(b'', 0), MO.IGNORE, CDA.VALUE_SENT)
+                    fd = RuleFieldDescriptor(XV, 0, 0, DI.BIDIRECTIONAL, Buffer(b'', 0), MO.IGNORE, CDA.VALUE_SENT)
                 else:
-                    fd = RuleFieldDescriptor('X:v', 0, 0, DI.BIDIRECTIONAL, mk(v[:n // 3], rnd.choice([L, R])), MO.MSB, CDA.LSB)
+                    fd = RuleFieldDescriptor(XV, 0, 0, DI.BIDIRECTIONAL, mk(v[:n // 3], rnd.choice([L, R])), MO.MSB, CDA.LSB)
                 fds, vals = [fd], [v]
                 if trail in ('ns', 'ns2'):
                     for j in range(1 if trail == 'ns' else 2):
